@@ -26,7 +26,7 @@ ASSUMPTIONS = ["block height stays below TIP-909 + 1.28e8 and u64::MAX; epochs a
 # (regex on the site key `body|kind|what|operands`, verdict, reason)   verdict ∈ inv | assume | finding
 TABLE = [
     (r"^Covenant::to_bytes\|unwrap\|unwrap\|OpCode::encode", "inv", "encode fails only for PushB literals > 255 bytes; covenants arriving as bytes are built by from_bytes (length byte ≤ 255); from_ops with a longer literal is misuse by the embedding program, not attacker input"),
-    (r"^(SealedState::apply_block|UnsealedState::seal|melmint::preseal_melmint|melmint::process_pegging)\|panic\|", "inv", "assert!(pools ≥ 2): create_builtins runs first in every seal (C16.R1/R2) and pools are never deleted (C16.R3)"),
+    (r"^(SealedState::apply_block|UnsealedState::seal|melmint::preseal_melmint|melmint::process_pegging)\|panic\|panic\|(Ge|Gt)\(Iterator::count\(SmtMapping::val_iter\(", "inv", "assert!(pools ≥ 2): create_builtins runs first in every seal (C16.R1/R2) and pools are never deleted (C16.R3)"),
     (r"^SealedState::apply_tip_906_for_next_state\|assert\|Overflow\(Add\)\|CoinMapping::coin_count", "assume", "a covenant's coin count stays below 2^64"),
     (r"^SealedState::apply_tip_906_for_next_state\|assert\|Overflow\(Sub\)\|phi\(", "inv", "progress counter starts at tree.count() and is decremented once per iterated entry of the same tree"),
     (r"^SealedState::apply_tip_906_for_next_state\|unwrap\|expect\|stdcode::deserialize\(elem\(Tree::iter", "inv", "before TIP-906 the coin tree holds only CoinDataHeight entries: count entries are written only when the flag handed to insert_coin is set (C20.R1) and that flag is tip_906() of the state at every call site (C20.R3)"),
